@@ -10,6 +10,9 @@ ids = sys.argv[1:] or sorted(os.path.basename(d) for d in glob.glob(os.path.join
 assert subprocess.run(['git', '-C', '/repo', 'status', '--porcelain', '--untracked-files=no'], capture_output=True, text=True).stdout.strip() == '', '/repo not clean'
 for sid in ids:
     d = os.path.join(VERIF, 'seeded', sid)
+    if json.load(open(os.path.join(d, 'meta.json'))).get('neutralised_by'):
+        print(sid, 'not evaluated: neutralised by a repair of /repo (see meta.json)', flush=True)
+        continue
     patch = os.path.join(d, 'patch.diff')
     r = subprocess.run(['git', '-C', '/repo', 'apply', patch])
     if r.returncode != 0:
@@ -53,6 +56,8 @@ for d in sorted(glob.glob(os.path.join(VERIF, 'seeded', 'C*'))):
         continue
     r = json.load(open(f))
     meta = json.load(open(os.path.join(d, 'meta.json')))
+    if meta.get('neutralised_by'):
+        continue
     rows.append((r['id'], r['breaks_property'], (meta.get('summary') or '')[:110].replace('|', '/').replace('\n', ' '),
                  '; '.join(f'{p}: {", ".join(v.get("rules", []))}' for p, v in r['fired'].items()) or '**missed**'))
 with open(os.path.join(VERIF, 'seeded', 'SUMMARY.md'), 'w') as f:
